@@ -14,7 +14,10 @@ git -C "$WT" apply "$DST/patch.diff" || { echo "patch does not apply"; exit 2; }
 suite=$(cd "$WT" && PYTHONPATH="$WT" /venv/bin/python -m pytest -ra -q -p no:cacheprovider --timeout=900 --continue-on-collection-errors 2>&1 | tail -1)
 d1=$(run_demo demo_patched.out)
 cd /verif
+cp "evidence/$P.json" "/tmp/evidence_$P.bak" 2>/dev/null
 PYODA_REPO="$WT" ./check "$P" --no-proof "$@" >"$DST/check_patched.out" 2>&1; c1=$?
+cp "evidence/$P.json" "$DST/evidence_patched.json" 2>/dev/null
+mv "/tmp/evidence_$P.bak" "evidence/$P.json" 2>/dev/null
 git -C "$WT" checkout -q -- .
 viol=$(grep -c '^VIOLATION' "$DST/check_patched.out")
 echo "$P-$N: demo clean=$d0 patched=$d1 | suite: $suite | check exit=$c1 violations=$viol"
